@@ -317,8 +317,9 @@ class Rewriter:
                     continue
                 if t.text in self.iter_params:
                     item = self.iter_params[t.text] or "R"
+                    item = re.sub(r"\bf64\b", "R", item)
                     if self.fp:
-                        item = re.sub(r"\b(%s|f64)\b" % re.escape(self.fp), "R", item)
+                        item = re.sub(r"\b%s\b" % re.escape(self.fp), "R", item)
                     out.append(L.Tok(L.IDENT, "Vec<%s>" % item, t.line))
                     self.bump("R4")
                     i += 1
@@ -407,6 +408,10 @@ class Rewriter:
 
 
 # --------------------------------------------------------------------------
+
+
+def self_fp_placeholder():
+    return "\0"
 
 
 class Unit:
@@ -575,6 +580,21 @@ class Unit:
             rw = Rewriter(float_param=fp, iter_params=iter_params, consts=getattr(self, "consts", ()))
             toks = rw.run(toks)
             self.bump_rules(rw.counts)
+        toks = self.r10_for_ref_patterns(toks)
+        for old, new in spec.get("subst", []):
+            # S4: explicit, logged substitution of one expression (for constructs neither Verus nor the rules can express)
+            otoks = [t.text for t in L.lex(old) if not L.is_trivia(t)]
+            idxs = [i_ for i_, t in enumerate(toks) if not L.is_trivia(t)]
+            hit = None
+            for c0 in range(len(idxs) - len(otoks) + 1):
+                if all(toks[idxs[c0 + d]].text == otoks[d] for d in range(len(otoks))):
+                    hit = c0
+                    break
+            if hit is None:
+                raise Unsupported("lost anchor: fn %s does not contain `%s`" % (spec["name"], old))
+            a_, b_ = idxs[hit], idxs[hit + len(otoks) - 1]
+            toks = toks[:a_] + [L.Tok(L.IDENT, new, toks[a_].line)] + toks[b_ + 1:]
+            self.log.setdefault("substitutions", []).append({"fn": spec["name"], "old": old, "new": new})
         parts = find_fn_parts(toks)
         loops = find_loops(toks, parts["body_open"])
         # assemble
@@ -655,33 +675,72 @@ class Unit:
                                 "clauses": len(spec["clauses"]), "loop_specs": sum(len(v) for v in spec["loops"].values()),
                                 "body_tokens": len(code_toks(body))})
 
+    def r10_for_ref_patterns(self, toks):
+        """R10: `for &PAT in E { BODY }` -> `for PAT__r in E { let PAT = *PAT__r; BODY }` (Verus has no ref patterns;
+        for Copy items the two forms are the same program).  PAT is an identifier or a tuple of identifiers."""
+        out = list(toks)
+        i = 0
+        k = 0
+        while i < len(out):
+            t = out[i]
+            if t.kind == L.IDENT and t.text == "for":
+                j = L.skip_trivia(out, i + 1, len(out))
+                if j < len(out) and out[j].text == "&":
+                    p0 = L.skip_trivia(out, j + 1, len(out))
+                    if out[p0].text == "(":
+                        p1 = L.match_close(out, p0)
+                    elif out[p0].kind == L.IDENT:
+                        p1 = p0
+                    else:
+                        raise Unsupported("for-loop ref pattern shape at line %d" % t.line)
+                    pat = text_of(out[p0:p1 + 1])
+                    nxt = L.skip_trivia(out, p1 + 1, len(out))
+                    if out[nxt].text != "in":
+                        raise Unsupported("for-loop ref pattern shape at line %d" % t.line)
+                    # body open brace
+                    b = nxt + 1
+                    while out[b].text != "{":
+                        if out[b].text in ("(", "["):
+                            b = L.match_close(out, b)
+                        b += 1
+                    tmp = "item__r%d" % k
+                    k += 1
+                    out = (out[:j] + [L.Tok(L.IDENT, tmp, t.line)] + out[p1 + 1:b + 1]
+                           + [L.Tok(L.WS, "\n                ", t.line), L.Tok(L.IDENT, "let %s = *%s;" % (pat, tmp), t.line)] + out[b + 1:])
+                    self.log["rules"]["R10"] = self.log["rules"].get("R10", 0) + 1
+            i += 1
+        return out
+
     def drop_iter_generics(self, toks):
-        """R4: `fn f<I>(.. data: &I ..) where for<'a> &'a I: IntoIterator<Item = &'a X>` -> Vec<R>.
-        Removes the generic parameter list if all its params are iterables so bound, and the where clause items."""
+        """R4: `fn f<I, ..>(.. data: &I ..) where for<'a> &'a I: IntoIterator<Item = &'a X>, ..` -> data: &Vec<X>.
+        Removes the iterable parameters from the generic list and their predicates from the where clause;
+        other generic parameters / predicates are kept verbatim."""
         parts = find_fn_parts(toks)
         if parts["where"] is None:
-            return toks, []
+            return toks, {}
         w = parts["where"]
         b = parts["body_open"]
         wtxt = text_of(toks[w:b])
-        params = re.findall(r"for\s*<\s*'\w+\s*>\s*&\s*'\w+\s+(\w+)\s*:\s*IntoIterator\s*<\s*Item\s*=\s*&\s*'\w+\s+(\w+|\([^)]*\))\s*>", wtxt)
+        pred = r"for\s*<\s*'\w+\s*>\s*&\s*'\w+\s+(\w+)\s*:\s*IntoIterator\s*<\s*Item\s*=\s*&\s*'\w+\s+(\w+|\([^)]*\))\s*>\s*,?"
+        params = re.findall(pred, wtxt)
         if not params:
-            return toks, []
-        # every where predicate must be of this shape, else unsupported
-        rest = re.sub(r"for\s*<\s*'\w+\s*>\s*&\s*'\w+\s+\w+\s*:\s*IntoIterator\s*<\s*Item\s*=\s*&\s*'\w+\s+(\w+|\([^)]*\))\s*>\s*,?", "", wtxt)
-        rest = rest.replace("where", "").strip()
-        if rest:
-            raise Unsupported("where clause beyond iterable bounds: %r" % rest)
-        names = [p[0] for p in params]
+            return toks, {}
+        rest = re.sub(pred, "", wtxt)
+        rest_body = rest.replace("where", "", 1).strip()
+        names = [p_[0] for p_ in params]
         if parts["gen_open"] is None:
             raise Unsupported("iterable bound without generic list")
         gtxt = text_of(toks[parts["gen_open"] + 1:parts["gen_close"]])
         gnames = [g.strip() for g in gtxt.split(",") if g.strip()]
-        if sorted(gnames) != sorted(names):
-            raise Unsupported("generic params %r are not all iterables %r" % (gnames, names))
-        new = toks[:parts["gen_open"]] + toks[parts["gen_close"] + 1:w] + [L.Tok(L.WS, " ", toks[w].line)] + toks[b:]
+        for nm in names:
+            if nm not in gnames:
+                raise Unsupported("iterable %s is not a plain generic parameter" % nm)
+        keep = [g for g in gnames if g not in names]
+        new_gen = L.lex("<" + ", ".join(keep) + ">") if keep else []
+        new_where = L.lex("\n    where " + rest_body + "\n    ") if rest_body else [L.Tok(L.WS, " ", toks[w].line)]
+        new = toks[:parts["gen_open"]] + new_gen + toks[parts["gen_close"] + 1:w] + new_where + toks[b:]
         self.log["rules"]["R4"] = self.log["rules"].get("R4", 0) + 1
-        return new, {p_[0]: (p_[1] if p_[1].startswith("(") else None) for p_ in params}
+        return new, {p_[0]: (p_[1] if (p_[1].startswith("(") or p_[1] not in (self_fp_placeholder(),)) else None) for p_ in params}
 
     def do_const(self, args):
         """R6: `const NAME: f64 = <lit>;` -> `pub fn NAME() -> (r: R) ensures <given> { <lit as R::lit> }`"""
@@ -769,6 +828,11 @@ class Unit:
                         spec["clauses"].append(nx[4:].rstrip())
                     elif nx.startswith("//@prologue|"):
                         spec["prologue"].append(nx[len("//@prologue|"):].rstrip())
+                    elif nx.startswith("//@subst "):
+                        ms = re.match(r'//@subst\s+"(.*?)"\s*=>\s*"(.*?)"\s*$', nx)
+                        if not ms:
+                            raise Unsupported("bad //@subst directive: " + nx)
+                        spec.setdefault("subst", []).append((ms.group(1), ms.group(2)))
                     elif nx.startswith("//@at "):
                         ma = re.match(r'//@at\s+"(.*?)"\s*\|(.*)$', nx)
                         if not ma:
